@@ -375,6 +375,22 @@ class C17(Oracle):
             for rid, n in heading.items():
                 if n > 1 and rid in ctx.nxt.requests:
                     out.append(V("C17", "two_vehicles_one_request", ctx.k, f"{n} vehicles travel to request {rid} under the built-in dispatcher"))
+        # the built-in dispatcher itself never sends a second vehicle to a request somebody is already travelling to
+        # (whoever else is instructing vehicles in this run)
+        for name, sim, env, ins in ctx.spy:
+            if name != "Dispatcher":
+                continue
+            under_way = {}
+            for v in sim.vehicles.values():
+                if act(v) == "DispatchTrip":
+                    under_way.setdefault(v.vehicle_state.request_id, []).append(v.id)
+            for i in ins:
+                rid = getattr(i, "request_id", None)
+                others = [x for x in under_way.get(rid, ()) if x != i.vehicle_id]
+                q = sim.requests.get(rid)
+                if others and q is not None and q.dispatched_vehicle in others:
+                    out.append(V("C17", "dispatcher_sends_second_vehicle", ctx.k,
+                                 f"the built-in dispatcher sent {i.vehicle_id} to request {rid} while {others} is already travelling to it (recorded vehicle {q.dispatched_vehicle})"))
         # cleared records: a vehicle that left DispatchTrip while the request still waits
         for vid, v0 in ctx.prev.vehicles.items():
             if act(v0) == "DispatchTrip":
